@@ -15,6 +15,9 @@ var literals = map[string]func() (interface{}, []string){
 	"time.wholesecond@field": func() (interface{}, []string) {
 		return &zoo.Scalars{S: "x", T: time.Unix(1500000000, 0)}, []string{"time.wholesecond", "type=Scalars"}
 	},
+	"both-slices": func() (interface{}, []string) {
+		return &zoo.BothSl{A: []zoo.Inner{{A: 1, S: "a"}}, B: []*zoo.Inner{nil, {A: 2, S: "b"}, nil}}, []string{"tag=slice-ptr-collision", "type=BothSl"}
+	},
 	"top-unnamed-map": func() (interface{}, []string) {
 		return map[string]int32{"a": 1, "b": 2}, []string{"tag=top-unnamed-map", "type=top:map[string]int32"}
 	},
